@@ -121,6 +121,14 @@ def links_of(page):
     return out
 
 
+def doc_base(final, page):
+    """URL that the links of `page` (fetched from `final`) are resolved against: the page's
+    own <base href> (itself resolved against the document URL) when it declares one."""
+    if page is not None and page.get('base') is not None and page.get('body') is None:
+        return canon(final, page['base'])
+    return final
+
+
 def closure(site, starts, opts):
     """BFS in discovery (FIFO) order -- the order of a concurrency-1 crawl.
     Returns (rows, requests) where rows: url -> rec(level, inline_level, parent, root,
@@ -160,7 +168,7 @@ def closure(site, starts, opts):
         for link, inline in links_of(page):
             if opts.get('robots') and ('nofollow' in mr or 'none' in mr) and not inline:
                 continue
-            c = canon(final, link)
+            c = canon(doc_base(final, page), link)
             child = dict(level=rec['level'] + 1,
                          inline_level=((rec.get('inline_level') or 0) + 1) if inline else None,
                          parent=u, root=rec['root'], try_count=0)
